@@ -397,5 +397,16 @@ def run(desc, M):
                 for sy in x.syms:
                     want = want + sy * sy
             M.eq(fdict.dot(fdict), want, "FactorDict.dot")
+            # same cliques, same functions, but every factor of the second dict lists its variables in reversed order
+            from pgmpy.factors.discrete import DiscreteFactor
+            other = {}
+            for i, (x, p) in enumerate(zip(fs, ps)):
+                rv = x.vars[::-1]
+                vals = []
+                for st in itertools.product(*[range(desc["card"][v]) for v in rv]):
+                    vals.append(M.impl(x.val(dict(zip(rv, st)))))
+                sn = {v: C.state_names(desc["states"], v, desc["card"][v]) for v in rv} if desc["states"] != "default" else None
+                other[tuple(p.variables)] = DiscreteFactor(rv, [desc["card"][v] for v in rv], vals, **({"state_names": sn} if sn else {}))
+            M.eq(fdict.dot(FactorDict(other)), want, "FactorDict.dot is independent of the axis order of the operands")
         for p, s in zip(ps, snaps):
             same_snap(M, p, s, "n-ary operand untouched")
